@@ -27,6 +27,7 @@ Accepted shapes (anything else raises TieBroken):
 """
 import ast
 from .pyexpr import ExprT, TieBroken, find_class, find_func, strip_doc, sha
+from .normalize import parse_file, parse as norm_parse
 
 SRC_ENGINE = 'bobocep/cep/engine/engine.py'
 SRC_SETUP = 'bobocep/setup/simple.py'
@@ -232,16 +233,14 @@ def _setup(fn):
 
 
 def translate(repo):
-    src_e = (repo / SRC_ENGINE).read_text()
-    tree = ast.parse(src_e)
+    src_e, tree = parse_file(repo, SRC_ENGINE)
     cls = find_class(tree, 'BoboEngine')
     f_init = find_func(cls, '__init__')
     f_upd = find_func(cls, 'update')
     pairs, defaults = _init(f_init)
     sched, test, l1, l2, cond = _update(f_upd)
 
-    src_s = (repo / SRC_SETUP).read_text()
-    tree_s = ast.parse(src_s)
+    src_s, tree_s = parse_file(repo, SRC_SETUP)
     f_gen = find_func(find_class(tree_s, 'BoboSetupSimple'), 'generate')
     shared, same = _setup(f_gen)
 
